@@ -123,12 +123,41 @@ type Table struct {
 	n     int
 	Err   string
 	valOf func(ssa.Value) TT
+	include func(*ssa.BasicBlock) bool
 }
 
 // Extract builds the table for fn. Back edges (edges to a dominator) are cut:
 // values carried around a loop become fresh atoms.
-func ExtractTable(fn *ssa.Function) *Table {
-	t := &Table{Fn: fn, val: map[ssa.Value]TT{}, cond: map[*ssa.BasicBlock]TT{}, back: map[[2]*ssa.BasicBlock]bool{}}
+func ExtractTable(fn *ssa.Function) *Table { return ExtractTableRegion(fn, nil) }
+
+// NearEntry builds a region predicate: blocks at most depth CFG edges from entry.
+func NearEntry(fn *ssa.Function, depth int) func(*ssa.BasicBlock) bool {
+	dist := map[*ssa.BasicBlock]int{}
+	if fn != nil && len(fn.Blocks) > 0 {
+		dist[fn.Blocks[0]] = 0
+		q := []*ssa.BasicBlock{fn.Blocks[0]}
+		for len(q) > 0 {
+			b := q[0]
+			q = q[1:]
+			for _, s := range b.Succs {
+				if _, ok := dist[s]; !ok {
+					dist[s] = dist[b] + 1
+					q = append(q, s)
+				}
+			}
+		}
+	}
+	return func(b *ssa.BasicBlock) bool {
+		d, ok := dist[b]
+		return ok && d <= depth
+	}
+}
+
+// ExtractTableRegion is ExtractTable restricted to the blocks accepted by
+// include (nil = all): other blocks are neither searched for atoms nor
+// evaluated, so a long function can be analysed around the blocks of interest.
+func ExtractTableRegion(fn *ssa.Function, include func(*ssa.BasicBlock) bool) *Table {
+	t := &Table{Fn: fn, val: map[ssa.Value]TT{}, cond: map[*ssa.BasicBlock]TT{}, back: map[[2]*ssa.BasicBlock]bool{}, include: include}
 	if fn == nil || len(fn.Blocks) == 0 {
 		t.Err = "no body"
 		return t
@@ -199,6 +228,9 @@ func ExtractTable(fn *ssa.Function) *Table {
 		}
 	}
 	for _, b := range fn.Blocks {
+		if include != nil && !include(b) {
+			continue
+		}
 		for _, in := range b.Instrs {
 			switch x := in.(type) {
 			case *ssa.If:
@@ -343,7 +375,7 @@ func (t *Table) topo() []*ssa.BasicBlock {
 	dfs = func(b *ssa.BasicBlock) {
 		seen[b] = true
 		for _, s := range b.Succs {
-			if t.back[[2]*ssa.BasicBlock{b, s}] || seen[s] {
+			if t.back[[2]*ssa.BasicBlock{b, s}] || seen[s] || t.include != nil && !t.include(s) {
 				continue
 			}
 			dfs(s)
